@@ -354,13 +354,26 @@ def path_name(n, frame=None, fn=None):
     return leaf_name(leaf, fr.fn if fr is not None else fn)
 
 
-def mode_value(n, frame=None):
+def const_local_value(n, fn):
+    """constant value of an expression, looking through a `const` local of fn that is initialised with a constant (a named open mode)"""
+    v = const_value(n)
+    m = strip_wrappers(n) if n is not None else None
+    if v is None and fn is not None and m is not None and m.get("k") == "var" and m.get("parm") is None:
+        dv = local_decl(fn, m.get("d"))
+        if dv and dv.get("init") is not None and "const" in (dv.get("t") or ""):
+            v = const_value(dv["init"])
+    return v
+
+
+def mode_value(n, frame=None, fn=None):
+    """the constant an open-mode expression evaluates to (through a helper's parameter, through a named const local); a mode that is
+    not a constant cannot be judged against the table: refusal, not a verdict"""
     if n is None:
         return None
-    v = const_value(n)
-    if v is None and frame is not None:
-        m, _fr = vresolve(n, frame)
-        v = const_value(m) if m is not None else None
+    m, fr = vresolve(n, frame) if frame is not None else (n, None)
+    v = const_local_value(m, fr.fn if fr is not None else fn)
+    if v is None:
+        raise AnalysisBroken("open mode `%s` is not a compile-time constant" % show(n)[:40])
     return v
 
 
@@ -387,8 +400,8 @@ def site_of(e):
     return None
 
 
-def _site_mode(kind, mexpr, default, frame):
-    mode = mode_value(mexpr, frame) if mexpr is not None else None
+def _site_mode(kind, mexpr, default, frame, fn=None):
+    mode = mode_value(mexpr, frame, fn) if mexpr is not None else None
     if kind in ("ofstream", "open"):
         return (mode if mode is not None else IOS_OUT) | IOS_OUT        # ofstream always adds ios::out
     return mode
@@ -405,7 +418,7 @@ def file_sites(fb, files):
             if s:
                 kind, paths, mexpr, default = s
                 names = [path_name(p, None, f) for p in paths]
-                out.append((f, e, kind, names[0] if len(names) == 1 else tuple(names), _site_mode(kind, mexpr, default, None)))
+                out.append((f, e, kind, names[0] if len(names) == 1 else tuple(names), _site_mode(kind, mexpr, default, None, f)))
     return out
 
 
@@ -465,7 +478,7 @@ def attributed_sites(fb, cg, files):
             mleaf = (strip_wrappers(mexpr), f) if mexpr is not None else None
             for (g, lv, ml, chain) in up(f, leaves, mleaf, ()):
                 names = [leaf_name(x, o) for (x, o) in lv]
-                mode = const_value(ml[0]) if ml is not None and ml[0] is not None else None
+                mode = mode_value(ml[0], None, ml[1]) if ml is not None and ml[0] is not None else None
                 if kind in ("ofstream", "open"):
                     mode = (mode if mode is not None else IOS_OUT) | IOS_OUT
                 res.append((g, f, e, kind, names[0] if len(names) == 1 else tuple(names), mode, chain))
@@ -880,6 +893,21 @@ def r5(ctx, r):
     # every symbolic length is bounded by a constant before it is added to the cursor
     # (the bound only has to keep `ptr + len` from wrapping: any constant below 2^31; that it is also LARGE enough is R8)
     bounds = {}
+    # the record's total length is found by dataflow, whatever it is called and wherever the frame is read (load() or a frame-reader
+    # helper the replay loop branches on): the size argument of the read on the _logPath stream that fills a buffer's data()
+    logs = [(e.frame, dv) for e in v.stmts() if e.node.get("k") == "decl" for dv in e.node["vars"]
+            if (dv.get("init") or {}).get("k") == "ctor" and dv["init"].get("cls") == "std::basic_ifstream" and dv["init"].get("args") and path_name(dv["init"]["args"][0], e.frame) == "_logPath"]
+    total = []
+    for e in v.stmts():
+        n = e.node
+        if n.get("k") == "mcall" and last(n.get("callee", "")) == "read" and len(n.get("args", [])) == 2 and len(logs) == 1:
+            o, ofr = vresolve(n.get("obj") or {}, e.frame)
+            if o is not None and o.get("k") == "var" and o.get("d") == logs[0][1]["d"] and ofr is logs[0][0] and any(x.get("k") == "mcall" and last(x.get("callee", "")) == "data" for x in walk(n["args"][0])):
+                tv, tfr = vresolve(strip_casts(n["args"][1]), e.frame)
+                if tv is not None and tv.get("k") == "var":
+                    total.append((tv, tfr))
+    if len(total) != 1:
+        raise AnalysisBroken("load(): the read of the record body from the log (`<log>.read(<buffer>.data(), <length>)`) not found exactly once (%d)" % len(total))
     for sym in ("keyLen", "valLen", "totalLen"):
         r.instance()
         ok = False
@@ -887,7 +915,8 @@ def r5(ctx, r):
             # (in load() itself, or in a helper that is handed the length: the helper's parameter is read as load()'s variable)
             co = common.cmp_oriented(b.cond, lambda x: const_value(x) is not None) if b.cond is not None else None
             lv, lfr = vresolve(strip_casts(co[1]), b.frame) if co else (None, None)
-            if co and co[0] in (">", ">=") and lv is not None and lfr is v.root_frame and lv.get("k") == "var" and lv["n"] == sym and const_value(co[2]) < 2 ** 31:
+            is_sym = lv is not None and lv.get("k") == "var" and (same_var(lv, lfr, total[0][0], total[0][1]) if sym == "totalLen" else (lfr is v.root_frame and lv["n"] == sym))
+            if co and co[0] in (">", ">=") and is_sym and const_value(co[2]) < 2 ** 31:
                 ok = True
                 bounds.setdefault(sym, []).append(const_value(co[2]) - (1 if co[0] == ">=" else 0))
         r.expect(ok, f, None, "%s unbounded" % sym, "the decoded length %s is not compared with a constant upper bound before it is used in `ptr + %s` (pointer arithmetic could wrap)" % (sym, sym),
@@ -1191,11 +1220,20 @@ def r8(ctx, r):
     for e in rets:
         v = strip_casts(e.node.get("v") or {})
         free = sorted({x["n"] for x in walk(v) if x.get("k") == "var"})
-        if v.get("k") in ("mcall", "call"):
+        if v.get("k") == "mcall" and last(v.get("callee", "")) == "count":
             okv, why = False, "the raw millisecond count of the time point (any sign)"
             continue
+        margs = [a for a in v.get("args", []) if not a.get("def")] if v.get("k") == "call" and v.get("callee") in ("std::max", "std::min") else None
         try:
-            fnv, _t, _c = compile_expr(v, free)
+            if margs is not None and len(margs) == 2:
+                # the clamp spelled std::max(ms, 1) / std::min(…): evaluated exactly, like the conditional expression it replaces
+                (fa, _t, _c), (fb_, _t2, _c2) = compile_expr(strip_casts(margs[0]), free), compile_expr(strip_casts(margs[1]), free)
+                pick = max if v["callee"] == "std::max" else min
+                fnv = lambda *vals, fa=fa, fb_=fb_, pick=pick: pick(fa(*vals), fb_(*vals))
+            elif v.get("k") in ("mcall", "call"):
+                raise AnalysisBroken("toEpochMs: return value `%s` is a call the rule does not evaluate" % show(v)[:40])
+            else:
+                fnv, _t, _c = compile_expr(v, free)
         except NotPure as ex:
             raise AnalysisBroken("toEpochMs: return value `%s` not evaluable (%s)" % (show(v)[:40], ex))
         import itertools
